@@ -184,6 +184,18 @@ pub fn check(c: &ScopeCase, probe: &Probe) -> Verdict {
     if c.nested_gitignore {
         sb.write("src/.gitignore", b"x.js\nmy lib/\n");
     }
+    // git's two other ignore sources: the repository's own exclude file and the user-wide one (which git and
+    // blockwatch both find through XDG_CONFIG_HOME); `git check-ignore` below is the authority on all of them
+    if c.arg_order & 4 != 0 {
+        let _ = std::fs::create_dir_all(sb.root.join(".git/info"));
+        let _ = std::fs::write(sb.root.join(".git/info/exclude"), "m.sh\nsrc/w.toml/\n");
+        probe.class("with .git/info/exclude");
+    }
+    if c.arg_order & 8 != 0 {
+        let _ = std::fs::create_dir_all(sb.home.join("xdg/git"));
+        let _ = std::fs::write(sb.home.join("xdg/git/ignore"), "z.md\ndist/\n");
+        probe.class("with a user-wide git ignore file");
+    }
     // old state: every file healthy (so that git tracks it), committed with -f
     let renamed: Vec<(String, String)> = diff_set
         .iter()
@@ -204,21 +216,50 @@ pub fn check(c: &ScopeCase, probe: &Probe) -> Verdict {
         sb.remove(old);
     }
 
+    let dirs: Vec<String> = {
+        let mut d: BTreeSet<String> = BTreeSet::new();
+        d.insert(String::new());
+        for p in &paths {
+            let mut parts: Vec<&str> = p.split('/').collect();
+            parts.pop();
+            for k in 1..=parts.len() {
+                d.insert(parts[..k].join("/"));
+            }
+        }
+        d.into_iter().collect()
+    };
+    let cwd = dirs[c.cwd as usize % dirs.len()].clone();
     // reference scope
-    let walkable = |p: &str| -> bool {
+    let global_ignore_on = c.arg_order & 8 != 0;
+    let k8_files: std::cell::RefCell<Vec<String>> = std::cell::RefCell::new(vec![]);
+    let walkable = |p: &str| -> T {
         let hidden = p.split('/').any(|c| c.starts_with('.'));
         if hidden {
-            return false;
+            return T::No;
         }
         probe.child();
         let o = sb.git(&["check-ignore", "--no-index", "-q", p]);
-        o.code != Some(0)
+        if o.code != Some(0) {
+            return T::Yes;
+        }
+        // K8: started from a sub-directory, the user-wide ignore file is matched relative to that directory
+        // (the `ignore` crate roots its global matcher at the current directory), so a file git ignores ONLY
+        // through that file may or may not be examined
+        if global_ignore_on && !cwd.is_empty() {
+            probe.child();
+            let w = sb.git(&["-c", "core.excludesFile=/dev/null", "check-ignore", "--no-index", "-q", p]);
+            if w.code != Some(0) {
+                k8_files.borrow_mut().push(p.to_string());
+                return T::Unspec;
+            }
+        }
+        T::No
     };
     let known_suffix = |p: &str| !p.ends_with(".txt");
     let mut status: Vec<(String, T)> = vec![];
     for p in &paths {
         let pos = if c.globs.is_empty() { T::from(c.interactive) } else { any_match(&c.globs, p, &paths) };
-        let scan = T::from(walkable(p)).and(pos);
+        let scan = walkable(p).and(pos);
         let cand = scan.or(T::from(diff_set.contains(p)));
         let fin = cand.and(any_match(&c.ignores, p, &paths).not());
         status.push((p.clone(), fin));
@@ -240,7 +281,7 @@ pub fn check(c: &ScopeCase, probe: &Probe) -> Verdict {
     }
     for (lp, target) in &link_paths {
         let pos = if c.globs.is_empty() { T::from(c.interactive) } else { any_match(&c.globs, lp, &paths) };
-        let scan = T::from(walkable(lp)).and(pos);
+        let scan = walkable(lp).and(pos);
         let fin = scan.and(any_match(&c.ignores, lp, &paths).not());
         // an out-of-scope link cannot be a tripwire (its content is its target's): it is only checked through the key sets
         let _ = target;
@@ -289,19 +330,6 @@ pub fn check(c: &ScopeCase, probe: &Probe) -> Verdict {
     if !renamed.is_empty() {
         probe.class("diff-with-renamed-file");
     }
-    let dirs: Vec<String> = {
-        let mut d: BTreeSet<String> = BTreeSet::new();
-        d.insert(String::new());
-        for p in &paths {
-            let mut parts: Vec<&str> = p.split('/').collect();
-            parts.pop();
-            for k in 1..=parts.len() {
-                d.insert(parts[..k].join("/"));
-            }
-        }
-        d.into_iter().collect()
-    };
-    let cwd = dirs[c.cwd as usize % dirs.len()].clone();
     // `pre` goes in front of the sub-command, `args` behind it
     let mut pre: Vec<String> = vec![];
     let mut args: Vec<String> = vec![];
@@ -362,6 +390,7 @@ pub fn check(c: &ScopeCase, probe: &Probe) -> Verdict {
             o.brief()
         )
     };
+    let mut k8_seen: Option<String> = None;
     for sub in ["list", "validate"] {
         // the subcommand goes first (`blockwatch list <globs>`), as documented
         let mut a: Vec<&str> = pre.iter().map(String::as_str).collect();
@@ -390,6 +419,9 @@ pub fn check(c: &ScopeCase, probe: &Probe) -> Verdict {
                 Err(e) => return Verdict::Fail(show(&format!("validation run failed: a file outside the scope was examined (tripwire) or a file in scope could not be read: {e}"), &o)),
             }
         };
+        if k8_files.borrow().iter().any(|p| keys.contains(p)) {
+            k8_seen = Some(format!("{sub}: {:?} examined although git ignores it through the user-wide ignore file (started from {cwd:?})", k8_files.borrow().iter().filter(|p| keys.contains(*p)).collect::<Vec<_>>()));
+        }
         let missing: Vec<&&str> = want_in.iter().filter(|p| !keys.contains(**p)).collect();
         let extra: Vec<&String> = keys.iter().filter(|k| !want_in.contains(k.as_str()) && !unspec.contains(k.as_str())).collect();
         if !missing.is_empty() || !extra.is_empty() {
@@ -397,6 +429,13 @@ pub fn check(c: &ScopeCase, probe: &Probe) -> Verdict {
         }
     }
     probe.sample(|| json!({"args": args, "cwd": cwd, "interactive": c.interactive, "gitignore": gi, "files": status.iter().map(|(p, s)| format!("{p} -> {s:?}")).collect::<Vec<_>>(), "diff_names": diff_set}));
+    if let Some(what) = k8_seen {
+        probe.class("known:K8");
+        if crate::known::listed("K8") {
+            return Verdict::Known("K8");
+        }
+        return Verdict::Fail(format!("C15: {what}"));
+    }
     Verdict::Pass
 }
 
@@ -408,7 +447,7 @@ pub fn case_strategy() -> BoxedStrategy<ScopeCase> {
         proptest::bool::weighted(0.2),
         proptest::collection::vec(g(), 0..4),
         proptest::collection::vec(g(), 0..4),
-        (proptest::collection::vec(any::<u16>(), 0..4), 0u8..4),
+        (proptest::collection::vec(any::<u16>(), 0..4), 0u8..16),
         proptest::bool::weighted(0.3),
         any::<u8>(),
         prop_oneof![2 => Just(0u8), 1 => 0u8..8],
@@ -419,11 +458,12 @@ pub fn case_strategy() -> BoxedStrategy<ScopeCase> {
 }
 
 pub fn run(run: &mut Run) {
-    run.rule = "random: a tree of 2..13 files over 29 directories (incl. conventionally skipped names: `node_modules`, `target`, `vendor`, `build`, `dist`, `__pycache__`; a name with a comma, top-level `c`, `w`, `o/i` (git's mnemonic diff prefixes), `a`, `b`, `b/b`, `b/a/b`, a name with a space, a dotted directory, hidden directories, git-ignored directories, directories named like files: `lib.py`, `notes.md`, `a/x.py`, `y.rs`) x 11 file names (5 languages, names with spaces/dots, hidden, git-ignored, unknown suffix), a generated .gitignore (+ optional nested one), in a third of the cases 1..2 symbolic links to healthy files of the tree plus two symbolic links to a directory whose own names look like source files (`zz_dirlink.py`, `src/chart.js`), 0..3 positional and 0..3 --ignore globs of the four documented forms in four argument orders / spellings (globs first, --ignore first, `--ignore=g` in front of the sub-command, interleaved) (`*.ext`, `dir/**`, `**/name`, exact path), a real `git diff --cached -M` naming 0..3 of the files (each touched inside its block; some of them renamed, so that the `---` and `+++` paths differ) or interactive mode, started from the root or any sub-directory. Every file holds one uniquely named violating block; files outside the reference scope are rewritten as tripwires (unclosed start tag), so examining one fails the run. Reference scope = ((not hidden and not ignored by `git check-ignore --no-index`) and matches a positional glob — everything when interactive without globs) or named in the diff, minus --ignore matches; `*.ext` on nested paths is unspecified. Compared with the key sets of `list` and of the diagnostics. Non-trivial = a top-level directory `b` together with a diff-named file outside every glob / hit by an ignore glob / under `b/`.".into();
+    run.rule = "random: a tree of 2..13 files over 29 directories (incl. conventionally skipped names: `node_modules`, `target`, `vendor`, `build`, `dist`, `__pycache__`; a name with a comma, top-level `c`, `w`, `o/i` (git's mnemonic diff prefixes), `a`, `b`, `b/b`, `b/a/b`, a name with a space, a dotted directory, hidden directories, git-ignored directories, directories named like files: `lib.py`, `notes.md`, `a/x.py`, `y.rs`) x 11 file names (5 languages, names with spaces/dots, hidden, git-ignored, unknown suffix), a generated .gitignore (+ optional nested one, + optional `.git/info/exclude`, + optional user-wide ignore file under XDG_CONFIG_HOME), in a third of the cases 1..2 symbolic links to healthy files of the tree plus two symbolic links to a directory whose own names look like source files (`zz_dirlink.py`, `src/chart.js`), 0..3 positional and 0..3 --ignore globs of the four documented forms in four argument orders / spellings (globs first, --ignore first, `--ignore=g` in front of the sub-command, interleaved) (`*.ext`, `dir/**`, `**/name`, exact path), a real `git diff --cached -M` naming 0..3 of the files (each touched inside its block; some of them renamed, so that the `---` and `+++` paths differ) or interactive mode, started from the root or any sub-directory. Every file holds one uniquely named violating block; files outside the reference scope are rewritten as tripwires (unclosed start tag), so examining one fails the run. Reference scope = ((not hidden and not ignored by `git check-ignore --no-index`) and matches a positional glob — everything when interactive without globs) or named in the diff, minus --ignore matches; `*.ext` on nested paths is unspecified. Compared with the key sets of `list` and of the diagnostics. Non-trivial = a top-level directory `b` together with a diff-named file outside every glob / hit by an ignore glob / under `b/`.".into();
     run.assumptions = vec![
         "git's own ignore matcher is the authority on .gitignore semantics; globs are matched by a harness-side matcher for the four documented forms only".into(),
         "default a/ b/ diff prefixes (no --no-prefix), paths free of characters git quotes".into(),
     ];
     run.shrink_iters = 300;
+    run.sentinel("K8", "scope", check);
     run.random("scope", run.tier.pick(1000, 25000), case_strategy, check);
 }
